@@ -158,9 +158,12 @@ type FetchCommand struct {
 	prev *FetchMessageData
 }
 
-func (cmd *FetchCommand) recvSeqNum(seqNum uint32) bool {
+// recvSeqNum checks whether a FETCH response for the message seqNum answers
+// this command. isLast indicates that the message is the last one in the
+// mailbox, which "*" refers to.
+func (cmd *FetchCommand) recvSeqNum(seqNum uint32, isLast bool) bool {
 	set, ok := cmd.numSet.(imap.SeqSet)
-	if !ok || !set.Contains(seqNum) {
+	if !ok || !(set.Contains(seqNum) || (isLast && set.Dynamic())) {
 		return false
 	}
 
@@ -172,9 +175,11 @@ func (cmd *FetchCommand) recvSeqNum(seqNum uint32) bool {
 	return true
 }
 
-func (cmd *FetchCommand) recvUID(uid imap.UID) bool {
+// recvUID is the same as recvSeqNum for UID sets. The last message of the
+// mailbox is the one with the highest UID, which "*" refers to.
+func (cmd *FetchCommand) recvUID(uid imap.UID, isLast bool) bool {
 	set, ok := cmd.numSet.(imap.UIDSet)
-	if !ok || !set.Contains(uid) {
+	if !ok || !(set.Contains(uid) || (isLast && set.Dynamic())) {
 		return false
 	}
 
@@ -498,11 +503,15 @@ func (c *Client) handleFetch(seqNum uint32) error {
 				return false
 			}
 
+			// "*" and "n:*" always include the last message of the mailbox.
+			// Client.mutex is held by findPendingCmdFunc.
+			isLast := c.mailbox != nil && seqNum == c.mailbox.NumMessages
+
 			// Skip if we haven't requested or already handled this message
 			if _, ok := cmd.numSet.(imap.UIDSet); ok {
-				return uid != 0 && cmd.recvUID(uid)
+				return uid != 0 && cmd.recvUID(uid, isLast)
 			} else {
-				return seqNum != 0 && cmd.recvSeqNum(seqNum)
+				return seqNum != 0 && cmd.recvSeqNum(seqNum, isLast)
 			}
 		})
 		if cmd != nil {
